@@ -311,6 +311,10 @@ def check_case(case):
                     out.append({"key": "rejects-valid-call", "what": "%s after %d in-place merges raised %r" % (typ, step, e), "case": dict(case, step=step)})
                     continue
                 fresh = np.asarray(SP(seq).get_linear_complexity(typ, userAlphabet=dict(d), blobLen=w, wordSize=2))
+                if arr.shape != (2, len(seq) - w + 1):
+                    out.append({"key": "shape", "what": "%s: %s with blobLen %d on a %d-residue sequence has shape %r" % (seq, typ, w, len(seq), arr.shape),
+                                "case": dict(case, step=step, type=typ)})
+                    break
                 if arr.shape != fresh.shape or not np.allclose(arr, fresh, rtol=1e-12, atol=1e-13):
                     out.append({"key": "user-alphabet-edited-in-place-ignored", "what": "%s: after %d in-place merges of the SAME dictionary object the "
                                 "reused object gives %r, a fresh object with a copy of the dictionary %r" % (typ, step, arr[1].tolist()[:4], fresh[1].tolist()[:4]),
